@@ -69,7 +69,8 @@ def vLen (nsamp npre : Int) : V :=
 /-- `AnySource.ArchiveDataBlock` (sample count of a raw-block request) -/
 def vRaw (n : Int) : V := if n < 0 then .reject else .accept
 
-/-- pixel map at `writeControlStart`: map length, then every channel number must have a pixel -/
+/-- pixel map at `writeControlStart`: map length (= number of pixels of the source, `nchan / channelsPerPixel`), then
+every channel number must have a pixel -/
 def vPix (nchan : Nat) (nums : List Int) (npix : Nat) : V :=
   if npix ≠ nchan then .reject
   else if nums.any (fun c => c < 1 || c > npix) then .reject
@@ -128,11 +129,28 @@ structure RS where
   writers : Bool         -- some channel has a file writer
   proj : List Bool       -- channel has projectors
   archive : Option (Int × Int)   -- (requested, collected) samples of the raw block being acquired
+  cpp : Nat := 1         -- `channelsPerPixel` of the source kind (2 for Lancero: error and feedback; else 1)
+  nums : List Int := []  -- the channels' numbers (`chanNumbers`)
+  map : Option Nat := none   -- the map server holds a pixel map of that many pixels
 deriving Repr
 
 def RS.init (nchan : Nat) : RS :=
   { nchan, active := true, flag := true, nsamp := 32, npre := 8, wActive := false, wPaused := false,
-    basePath := false, writers := false, proj := List.replicate nchan false, archive := none }
+    basePath := false, writers := false, proj := List.replicate nchan false, archive := none,
+    nums := (List.range nchan).map fun (i : Nat) => (i : Int) + 1 }
+
+/-- channels per pixel by source kind: `NewLanceroSource`/`LanceroSource.PrepareChannels` 2, every other source 1 -/
+def srcCpp (src : String) : Nat := if src == "lancero" then 2 else 1
+
+/-- channel numbers by source kind, first number `chan0` (ROACH: always 0; Abaco: the channel offset of the packets;
+Lancero: `firstRowChanNum`, error and feedback channel of a pixel share the number; simulated sources: 0, as
+`AnySource.PrepareChannels` numbers them at Start) -/
+def srcNums (src : String) (nchan : Nat) (chan0 : Int) : List Int :=
+  if src == "lancero" then (List.range nchan).map fun (i : Nat) => chan0 + ((i / 2 : Nat) : Int)
+  else (List.range nchan).map fun (i : Nat) => chan0 + (i : Int)
+
+def RS.initSrc (src : String) (nchan : Nat) (chan0 : Int) : RS :=
+  { RS.init nchan with cpp := srcCpp src, nums := srcNums src nchan chan0 }
 
 inductive Req where
   | trig (idx : List Int)
@@ -145,6 +163,7 @@ inductive Req where
   | group (add : Bool) (flat : List Int)
   | stopCoupling
   | raw (n : Int)
+  | loadMap (npix : Nat)
   | block | stop | selfEnd | refresh | start
 deriving Repr
 
@@ -188,6 +207,9 @@ def reqStep (s : RS) : Req → RS × Ret
       if flags == 0 then (s, 1)
       else if s.writers then (s, 1)
       else if flags / 2 % 2 == 1 && !s.proj.any id then (s, 1)
+      -- a loaded pixel map must fit the source: `nchan / channelsPerPixel` pixels, a pixel for every channel number;
+      -- a map error is answered as an error AND unloads the map (`SourceControl.WriteControl`)
+      else if s.map.any (fun npix => vPix (s.nchan / s.cpp) s.nums npix == .reject) then ({ s with map := none }, 1)
       else if path == 1 && !s.basePath then (s, 1)
       else if path == 2 then (s, 1)
       else ({ s with writers := true, wActive := true, wPaused := false, basePath := true }, 0)
@@ -199,6 +221,7 @@ def reqStep (s : RS) : Req → RS × Ret
   | .raw n => queued s fun s =>
     if s.archive.isSome then (s, 1)
     else if vRaw n == .accept then (({ s with archive := some (n, 0) }).onBlock, 0) else (s, 1)
+  | .loadMap npix => ({ s with map := some npix }, 0)     -- the map server's own RPC: not queued, always answered
   | .block => if s.active then (s.onBlock, 0) else (s, 1)
   | .stop =>
     if s.active then ({ s with active := false, flag := false, wActive := false, wPaused := false, writers := false, archive := s.archive }, 0)
@@ -312,6 +335,7 @@ def parseReq : P Req := do
   | "G" => do let a ← bool; let fl ← list int; pure (.group a fl)
   | "X" => pure .stopCoupling
   | "R" => do let n ← int; pure (.raw n)
+  | "M" => do let n ← nat; pure (.loadMap n)
   | "B" => pure .block
   | "K" => pure .stop
   | "Z" => pure .selfEnd
@@ -323,7 +347,7 @@ inductive Kind where
   | facts
   | hist (nchan : Nat) (reqs : List Req)
   | pair (nchan : Nat) (reqs : List Req)
-  | hw (src : String) (nchan : Nat) (ending : String) (reqs : List Req)
+  | hw (src : String) (nchan : Nat) (chan0 : Int) (ending : String) (reqs : List Req)
   | timing
   | commentFail | dropFail | longPath
   | mapPix (nchan npix : Nat)
@@ -347,9 +371,10 @@ def parseKind : P Kind := do
   | "hw" => do
     kw "src"; let src ← tok
     kw "nchan"; let n ← nat
+    kw "chan0"; let c0 ← int
     kw "end"; let e ← tok
     kw "reqs"; let reqs ← list parseReq
-    pure (.hw src n e reqs)
+    pure (.hw src n c0 e reqs)
   | "timing" => pure .timing
   | "fault" => do
     let f ← tok
@@ -523,12 +548,14 @@ def runLine (ts : List String) : Verdict :=
             else match judgeSkeleton "pair" r with
               | .ok tags => .ok ((tags ++ ["pair", "rejected", "gated"]).eraseDups)
               | v => v
-    | .hw src nchan ending reqs, .run r =>
-      -- requests served by the core loop of a hardware-style source (one assembler goroutine per getNextBlock)
+    | .hw src nchan chan0 ending reqs, .run r =>
+      -- requests served by the core loop of a real source kind (Abaco/Lancero: one assembler goroutine per getNextBlock;
+      -- ROACH over UDP; simulated sources), incl. pixel-map histories whose answers depend on the source kind
       if r.rets.contains 2 then .viol "C11:wedge a control request got no reply (watchdog)"
       else
-        let model := (runReqs (RS.init nchan) reqs).2
+        let model := (runReqs (RS.initSrc src nchan chan0) reqs).2
         if r.rets.length != model.length then .diff s!"hw history cut short: {r.rets.length} of {model.length} replies (probe {r.probe})"
+        else if r.nums != srcNums src nchan chan0 then .diff s!"hw source {src}: channel numbers {r.nums}, the model numbers them {srcNums src nchan chan0}"
         else match firstDiff model r.rets 0 with
           | some i =>
             if r.rets.getD i 9 == 0 && model.getD i 9 == 1 then
@@ -537,7 +564,11 @@ def runLine (ts : List String) : Verdict :=
           | none =>
             if r.probe == 1 then .viol "C11:data-stalled requests were served but no further block was processed afterwards"
             else match judgeSkeletonOf src (src == "abaco") "hw" r with
-              | .ok tags => .ok ((tags ++ ["hw", src, "end-" ++ ending, "gated", "request"]).eraseDups)
+              | .ok tags =>
+                let mapped := reqs.any fun q => match q with | .loadMap _ => true | _ => false
+                let rej := (model.zip reqs).any fun (x, q) => x == 1 && (match q with | .write 0 _ _ => true | _ => false)
+                .ok ((tags ++ ["hw", src, "end-" ++ ending, "gated", "request"] ++ (if mapped then ["map"] else [])
+                       ++ (if mapped && rej then ["map-refused"] else [])).eraseDups)
               | v => v
     | .commentFail, .run r =>
       if r.rets.contains 2 then .viol "C11:wedge a control request got no reply (watchdog)"
